@@ -1621,7 +1621,9 @@ def classify(ctx, failure):
     # the weights (sigma-apr/stdev)^2: weights below ~1e-6 make a regular network "singular", weights above ~1e5 hide the
     # zero pivots of a free network; shows as a refusal or as removed points (different numbers of equations /
     # unknowns) for one sigma-apr of a pair only
-    if "net" in p and p.get("alg") in ("cholesky", "envelope"):
+    # (gso, too, tests its column norms against an absolute tolerance: weights above ~1e5 make the rounding residue of
+    # a dependent column look independent; svd tests relative to the largest singular value and is scale free)
+    if "net" in p and p.get("alg") in ("cholesky", "envelope", "gso"):
         nets = [p["net"]]
         if p.get("sigma_apr_2"):
             n2 = copy.deepcopy(p["net"])
